@@ -674,8 +674,8 @@ class Interp:
 
     def st_Assign(self, st):
         val = self.eval(st.value)
-        if self.nograd_depth and isinstance(val, S):
-            val = mk("nograd", val)
+        if self.nograd_depth and isinstance(val, S) and not isinstance(st.value, (ast.Name, ast.Attribute)):
+            val = mk("nograd", val)  # (a plain `x = y` only creates another reference to the same object)
         for t in st.targets:
             self.assign(t, val, st)
         return False
@@ -721,6 +721,11 @@ class Interp:
             old = self.sym(self.eval(t))
             new = mk(op, old, rhs)
             self.assign(t, new, st)
+            if not self._numberish(old):
+                # `self.x += v` on a tensor attribute mutates the tensor in place: every other
+                # holder of the old object (e.g. `old = self.x` taken before) now sees the new value
+                self.replace_identity(old, new)
+                self.assign(t, new, st)
         return False
 
     def _numberish(self, s: S) -> bool:
